@@ -26,6 +26,7 @@ var (
 	fTrace     = flag.Bool("sim.trace", false, "print the trace when replaying")
 	fDigestN   = flag.Int("sim.digestn", 0, "record digests of the first N runs of this shard (determinism self-test)")
 	fShrink    = flag.Int("sim.shrink", 300, "re-execution budget for minimisation")
+	fDumpPlan  = flag.Uint64("sim.dumpplan", 0, "C20: write the plan generated from this run seed to -sim.out and exit")
 )
 
 // WorkerViolation is one minimised violation found by a worker.
@@ -84,6 +85,15 @@ func writeReplay(dir string, plan Plan) string {
 func TestSim(t *testing.T) {
 	if *fReplay != "" {
 		doReplay(t)
+		return
+	}
+	if *fDumpPlan != 0 {
+		plan := c20Generate(*fDumpPlan, *fTier)
+		if gd := os.Getenv("GODEBUG"); gd != "" {
+			plan.Env = map[string]string{"GODEBUG": gd}
+		}
+		b, _ := json.MarshalIndent(plan, "", " ")
+		os.WriteFile(*fOut, b, 0o644)
 		return
 	}
 	if *fProp == "" {
